@@ -59,7 +59,8 @@ Proof.
       try discriminate.
     inversion Hkeys; subst k0. simpl in Hval. inversion Hval; subst. reflexivity. }
   unfold resolve. cbn [List.length]. rewrite Hnk.
-  cbn -[mc_get_connection as_int]. rewrite Ha, Hy. cbn -[mc_get_connection]. rewrite Hk. reflexivity.
+  cbn -[mc_get_connection as_int field_value_ok]. unfold field_value_ok. rewrite Ha, Hy.
+  cbn -[mc_get_connection]. rewrite Hk. reflexivity.
 Qed.
 
 (* leaving an application block whose body does not itself change the block's context: exactly one
